@@ -46,6 +46,11 @@ thread_local! {
     static SEEN: RefCell<HashMap<(usize, usize), usize>> = RefCell::new(HashMap::new());
     /// scenario -> (logs in the before hook, logs in the after hook)
     static HOOKS: RefCell<HashMap<usize, (usize, usize)>> = RefCell::new(HashMap::new());
+    /// hand-off mode: step (giver scenario, step 0) parks a clone of ITS span here after its own logs;
+    /// step (taker scenario, step 0) logs one more message of the giver INSIDE that span, then drops it
+    /// (a span that outlives the step future, like a task spawned `in_current_span()`)
+    static HANDOFF: RefCell<Option<(usize, usize)>> = const { RefCell::new(None) };
+    static PARKED: RefCell<Option<tracing::Span>> = const { RefCell::new(None) };
 }
 
 /// what follows the `L <scen> <step> <k>` head of a message:
@@ -56,6 +61,11 @@ fn tail(kind: u8, k: usize) -> &'static str {
         1 => [" a__b", " status=__unknown here", " __7", " x__unknown"][k % 4],
         _ => " __cucumber__scenario z",
     }
+}
+
+/// number of the giver's own messages in step 0 = the index of the handed-off message... of the GIVER
+fn after_of(giver: usize) -> usize {
+    PLAN.with(|p| p.borrow().get(&(giver, 0)).map_or(0, |x| x.0 + x.2))
 }
 
 fn scen_of(s: &gherkin::Scenario) -> usize {
@@ -101,6 +111,24 @@ fn step_fn(_: &mut TW, ctx: step::Context) -> LocalBoxFuture<'_, ()> {
             tracing::info!("L {sc} {st} {k}{}", tail(kind, k));
         }
         YieldN(yields / 2).await;
+        let handoff = HANDOFF.with(|h| *h.borrow());
+        if let Some((giver, taker)) = handoff {
+            if st == 0 && sc == giver {
+                PARKED.with(|p| *p.borrow_mut() = Some(tracing::Span::current()));
+            } else if st == 0 && sc == taker {
+                // wait for the giver's span, log the giver's last message inside it, release it
+                for _ in 0..10_000 {
+                    if PARKED.with(|p| p.borrow().is_some()) { break; }
+                    YieldN(1).await;
+                }
+                if let Some(span) = PARKED.with(|p| p.borrow_mut().take()) {
+                    YieldN(2).await;
+                    span.in_scope(|| tracing::info!("L {giver} 0 {}", after_of(giver)));
+                    YieldN(1).await;
+                    drop(span);
+                }
+            }
+        }
         if fail_once && nth == 1 {
             panic!("first attempt fails");
         }
@@ -143,6 +171,8 @@ pub fn child(seed: u64, mode: &str) {
     let marker_run = !directed && rng.chance(1, 8);
     let mut marked: Vec<(usize, usize)> = vec![];
     let mut hooks: HashMap<usize, (usize, usize)> = HashMap::new();
+    // hand-off of a step span between the first two scenarios (they must run concurrently)
+    let handoff = !directed && limit >= 2 && nscen >= 2 && rng.chance(1, 5);
     let mut feats = vec![];
     let mut plan = HashMap::new();
     let mut expected: Vec<(usize, usize, usize)> = vec![];
@@ -154,15 +184,21 @@ pub fn child(seed: u64, mode: &str) {
         for _ in 0..(nscen / nfeat).max(1) {
             id += 1;
             let nsteps = rng.range(1, 3);
-            let fail_step = if rng.chance(1, 4) { Some(rng.below(nsteps)) } else { None };
+            let fail_step = if rng.chance(1, 4) && !(handoff && id <= 2) { Some(rng.below(nsteps)) } else { None };
             let mut steps = vec![];
             for st in 0..nsteps {
-                let (mut b, y, a) = (rng.below(3), rng.below(4), rng.below(3));
-                // a burst: many events with no await point in between (more than a few polls can forward)
-                if burst_left > 0 && rng.chance(1, 3) { b = rng.range(120, 400); burst_left -= 1; }
+                let (mut b, mut y, mut a) = (rng.below(3), rng.below(4), rng.below(3));
+                // a burst: many events with no await point in between (more than a few polls can forward),
+                // before the first await or after the last one
+                if burst_left > 0 && rng.chance(1, 3) {
+                    let n = *rng.pick(&[150usize, 400, 700, 1500]);
+                    if rng.chance(1, 2) { b = n; } else { a = n; y = rng.below(2); }
+                    burst_left -= 1;
+                }
                 let kind: u8 = match mode {
                     "d0" => 2,
                     "d1" => 1,
+                    _ if handoff && id <= 2 => 0,
                     _ if marker_run && b + a > 0 && rng.chance(1, 3) => 2,
                     _ if rng.chance(1, 5) => 1,
                     _ => 0,
@@ -192,6 +228,11 @@ pub fn child(seed: u64, mode: &str) {
             for (i, st) in s.steps.iter_mut().enumerate() { st.position.line = crate::rr::RST + i; }
         }
         feats.push(built);
+    }
+    if handoff && id >= 2 && nfeat == 1 {
+        // the giver's step 0 delivers one more message (sent from inside the taker)
+        for e in expected.iter_mut() { if e.0 == 1 && e.1 == 0 { e.2 += 1; } }
+        HANDOFF.with(|h| *h.borrow_mut() = Some((1, 2)));
     }
     PLAN.with(|p| *p.borrow_mut() = plan);
     HOOKS.with(|h| *h.borrow_mut() = hooks);
@@ -231,7 +272,7 @@ pub fn child(seed: u64, mode: &str) {
         show_list(&marked, |(s, st)| format!("{s} {st}")),
         show_list(&evs, |e| e.clone()),
     );
-    eprintln!("MODES hooks={with_hooks} burst={burst} outer={outer_span} marker={marker_run}");
+    eprintln!("MODES hooks={with_hooks} burst={burst} outer={outer_span} marker={marker_run} handoff={}", HANDOFF.with(|h| h.borrow().is_some()));
 }
 
 fn id_num(name: &str) -> String {
